@@ -124,7 +124,10 @@ COMMENT_TEXTS = [
     "#", "## double", "# # #", "ångström µm", "a" * 500, "ms**-1 extra words", "dimensionless", "1", "mV # and more", "x" , "None", "lambda", "e", "pi", "E", "t",
 ]
 COMMENT_TEXTS += ["vertical\x0btab", "form\x0cfeed", "file\x1cseparator", "next\x85line", "line\u2028separator parameters(gain=2.0)", "paragraph\u2029separator", "back\\slash \\x \\u \\N", "tab\there"]
-HANG_TEXTS = ["9**9**9", "9**9**9**9", "10**10**10"]
+COMMENT_TEXTS += ["exported from C:\\models\\cell\\", "see notes\\", "\\", "total ionic current through the membrane of the cell, in uA/cm**2",
+                  "the quick brown fox jumps over the lazy dog and keeps on running for a while (see the paper)", "a b c d e f g h i j k l m n o p q r s t u v w x y z a b c d e f g h i j k l m n o p, q"]
+HANG_TEXTS = ["9**9**9", "9**9**9**9", "10**10**10", "total ionic current through the membrane of the cell, in uA/cm**2 and some more words; really",
+              "a b c d e f g h i j k l m n o p q r s t u v w x y z a b c d e f g h i j k l m n o p, q"]
 
 
 def layout_lines(spec: ModelSpec):
